@@ -47,6 +47,9 @@ type etherProvider struct {
 	queue     []etherItem
 	wake      chan struct{}
 	task      bool
+	// startedCh is closed when the manager has started the provider (the
+	// resolver callback is known from then on)
+	startedCh chan struct{}
 }
 
 // ether connects the providers of all nodes: what one announces, the others resolve.
@@ -66,7 +69,7 @@ func newEther(x *Ctx) *ether {
 }
 
 func (e *ether) provider(node string, ip string) *etherProvider {
-	p := &etherProvider{eth: e, node: node, ip: net.ParseIP(ip), wake: make(chan struct{}, 1)}
+	p := &etherProvider{eth: e, node: node, ip: net.ParseIP(ip), wake: make(chan struct{}, 1), startedCh: make(chan struct{})}
 	e.mu.Lock()
 	e.provs = append(e.provs, p)
 	e.mu.Unlock()
@@ -202,6 +205,11 @@ func (p *etherProvider) Start(autoReconnect bool, cb api.MdnsResolveCB) bool {
 	p.started = true
 	startTask := !p.task
 	p.task = true
+	select {
+	case <-p.startedCh:
+	default:
+		close(p.startedCh)
+	}
 	p.mu.Unlock()
 	if startTask {
 		// one delivery goroutine per provider, as in both real providers
